@@ -53,7 +53,9 @@ Definition run_px (l : list Z) : list Z :=
   match l with
   | kind :: mode :: hq :: aa :: r :: g :: b :: a :: hm :: x0 :: len :: w :: rest =>
       let '(row, extra) := dec_row (Z.to_nat w) rest in
-      let p := mkpaint (mode_name mode) (color_from_rgba8 r g b a) (negb (aa =? 0)) (negb (hq =? 0)) in
+      (* a colour channel above 255 is the bit pattern of an f32 in [0, 1] (Color::from_rgba), otherwise a byte (from_rgba8) *)
+      let ch := fun v => if v <=? 255 then norm_u8 v else F32.of_bits v in
+      let p := mkpaint (mode_name mode) (mkcf (ch r) (ch g) (ch b) (ch a)) (negb (aa =? 0)) (negb (hq =? 0)) in
       let unchanged := flat_map (fun i => [pr (in_dst i); pg (in_dst i); pb (in_dst i); pa (in_dst i)]) row in
       if kind =? 5 then
         (* RasterPipelineBlitter::new refuses a mask whose size differs from the pixmap's *)
